@@ -53,6 +53,137 @@ def hashed_path(path):
     return None
 
 
+def _arc_obligations(run, ix):
+    """A1: arc_center's barycentric formula is the circumcentre (equidistant from the three points), 2D and 3D.
+    A2: the long-arc test is sign-equivalent to cos(span / 2) wherever the middle control point lies on the arc."""
+    import numpy as np
+    import sympy as sp
+    from ..alg import Frame, Interp, Unsupported, arr, symbols_array, _Return
+
+    run.rule("A1", "arc_center: the computed centre is equidistant from the three control points (rational identity, 2D and 3D)")
+    run.rule("A2", "arc_center: the quantity whose sign selects the long arc equals K sin(a) sin(b) cos(a + b), K > 0, for arc halves a, b on either side of the "
+                   "middle control point: the decision depends on the span only, not on where the middle point sits")
+    f = ix.func("trimesh.path.arc:arc_center")
+
+    def tolerant(frame, body, skipped):
+        for st in body:
+            if isinstance(st, ast.If):
+                try:
+                    t = frame.truth(frame.ev(st.test), st.test)
+                except Unsupported as e:
+                    skipped.append(f"line {st.lineno}: {str(e)[:60]}")
+                    continue
+                tolerant(frame, st.body if t else st.orelse, skipped)
+                continue
+            try:
+                frame.stmt(st)
+            except Unsupported as e:
+                key = (frame.fi.qualname, st.targets[0].id) if isinstance(st, ast.Assign) and isinstance(st.targets[0], ast.Name) else None
+                if key in frame.it.overrides:
+                    frame.env[key[1]] = frame.it.overrides[key]  # the statement's own value is not needed: the rule supplies it
+                else:
+                    skipped.append(f"line {st.lineno}: {str(e)[:60]}")
+
+    # ---------------- A1
+    for dim in (2, 3):
+        P = symbols_array("p", (3, dim))
+        it = Interp(ix)
+        it.decider = lambda fr, t: False
+        it.trace = {}
+        fr = Frame(it, f, {"points": P, "return_normal": False, "return_angle": False})
+        skipped = []
+        try:
+            tolerant(fr, f.node.body, skipped)
+        except _Return:
+            pass
+        c = it.trace.get(("arc_center", "center"))
+        if not c:
+            raise AnalysisError(f"anchor vanished: `center` in arc_center ({skipped[:3]})")
+        c = arr(c[-1])
+        # |p_k - c|^2 - |p_l - c|^2 = |p_k|^2 - |p_l|^2 - 2 c.(p_k - p_l): linear in c, so clear the denominators and expand
+        fr_ = [sp.fraction(sp.together(c[j])) for j in range(dim)]
+        den = sp.Integer(1)
+        for _, d_ in fr_:
+            if sp.expand(den - d_) != 0:
+                den = sp.lcm(den, d_) if den != 1 else d_
+
+        def cleared(expr_of_c):
+            return sp.expand(sum(term for term in expr_of_c))
+
+        def equidistant(k, l):
+            const = sum(P[k, j] ** 2 - P[l, j] ** 2 for j in range(dim)) * den
+            lin = sum(2 * fr_[j][0] * sp.cancel(den / fr_[j][1]) * (P[k, j] - P[l, j]) for j in range(dim))
+            return sp.expand(const - lin) == 0
+
+        ok = equidistant(0, 1) and equidistant(1, 2)
+        if dim == 3 and ok:
+            # the centre lies in the plane of the three points
+            n = sp.Matrix(list(P[1] - P[0])).cross(sp.Matrix(list(P[2] - P[0])))
+            ok = sp.expand(sum(n[j] * (fr_[j][0] * sp.cancel(den / fr_[j][1]) - P[0, j] * den) for j in range(3))) == 0
+        run.obligation("A1", f.where, f"|p0 - c|^2 == |p1 - c|^2 == |p2 - c|^2 for symbolic {dim}D points{' and c is coplanar' if dim == 3 else ''}", ok)
+        if not ok:
+            run.violation("A1", f.where, f"arc_center's centre is not the circumcentre of its three control points ({dim}D)", key=key_of("C14-A1", dim))
+
+    # ---------------- A2
+    r, cx, cy = sp.symbols("r cx cy", real=True)
+    st_, ct = sp.symbols("s_t c_t", real=True)
+    sa, ca = sp.symbols("s_a c_a", real=True)
+    sb, cb = sp.symbols("s_b c_b", real=True)
+
+    def add(p, q):  # (sin, cos) of a sum
+        return (p[0] * q[1] + p[1] * q[0], p[1] * q[1] - p[0] * q[0])
+
+    def dbl(p):
+        return (2 * p[0] * p[1], p[1] ** 2 - p[0] ** 2)
+
+    th0 = (st_, ct)
+    th1 = add(th0, dbl((sa, ca)))
+    th2 = add(th1, dbl((sb, cb)))
+    unit = np.array([[t[1], t[0]] for t in (th0, th1, th2)], dtype=object)
+    P = np.array([[cx + r * u[0], cy + r * u[1]] for u in unit], dtype=object)
+    captured = {}
+
+    def decider(fr, test):
+        txt = ast.unparse(test)
+        if isinstance(test, ast.Compare) and len(test.ops) == 1 and isinstance(test.ops[0], ast.Gt) and "angle" in txt and "_TOL_ZERO" in txt:
+            return True  # a non-degenerate arc: go on to the long-arc conjunct
+        if isinstance(test, ast.Compare) and len(test.ops) == 1 and isinstance(test.ops[0], ast.Lt) and ast.unparse(test.comparators[0]) in ("0.0", "0") \
+                and "q" not in captured and "dot <" not in txt:
+            try:
+                captured["q"] = fr.ev(test.left)
+                captured["line"] = test.lineno
+            except Unsupported as e:
+                captured["err"] = str(e)
+        return False
+
+    it = Interp(ix, overrides={("arc_center", "center"): np.array([cx, cy], dtype=object), ("arc_center", "vector"): unit,
+                               ("arc_center", "angle"): sp.Symbol("angle", positive=True), ("arc_center", "dot"): sp.Symbol("dotv", real=True)})
+    it.decider = decider
+    fr = Frame(it, f, {"points": P, "return_normal": False, "return_angle": True})
+    skipped = []
+    try:
+        tolerant(fr, f.node.body, skipped)
+    except _Return:
+        pass
+    if "q" not in captured:
+        raise AnalysisError(f"anchor vanished: the `... < 0.0` long-arc test in arc_center ({captured.get('err', skipped[:4])})")
+    from .c19 import reduce_mod
+
+    class _T:
+        syms = {"t": (st_, ct), "a": (sa, ca), "b": (sb, cb)}
+
+    q = reduce_mod(sp.expand(sp.sympify(captured["q"])), _T)
+    ref = reduce_mod(sp.expand(sa * sb * (ca * cb - sa * sb)), _T)
+    K = sp.cancel(q / ref) if ref != 0 else sp.nan
+    ok = K.free_symbols <= {r} and bool(K.subs(r, 1) > 0) if K is not sp.nan and K.free_symbols <= {r} else False
+    run.obligation("A2", f.where, f"long-arc quantity == ({K}) * sin(a) sin(b) cos(a + b)" if ok else f"long-arc quantity / (sin a sin b cos(a+b)) = {str(K)[:80]}", ok)
+    if not ok:
+        run.violation("A2", f"{f.module.rel}:{captured['line']} arc_center",
+                      f"the long-arc test of arc_center is not a positive multiple of sin(a) sin(b) cos(a + b): its sign depends on where the middle control "
+                      f"point sits on the arc, so some arcs of more than 180 degrees are reported with span 360 - S (ratio: {str(K)[:90]})",
+                      key=key_of("C14-A2", "long-arc"))
+
+
 def rhs_kind(st, sim):
     if isinstance(st, ast.Assign) and isinstance(st.targets[0], ast.Attribute) and st.targets[0].attr == "vertices":
         v = st.value
@@ -200,6 +331,8 @@ def check(run):
         run.instance("R3", b.where, f"{cname}._bytes covers points{' and the closed flag' if has_closed_flag else ''}", ok)
         if not ok:
             run.violation("R3", b.where, f"{cname}._bytes omits state that changes the curve (points / closed flag)", key=key_of("C14-R3", cname))
+    # ---- A1 / A2 three-point arcs (algebraic)
+    _arc_obligations(run, ix)
     # ---- R7
     raw_reads(run, ix, ef, "R7", "C14", module_filter=lambda m: m.startswith("trimesh.path"), floor=3)
     run.assume("invariance of the eight copied keys under invertible affine maps is a frozen judgement (table in the checker, reasons in evidence)")
